@@ -394,7 +394,7 @@ func randAssetName(r *rng.R) string {
 }
 
 func randString(r *rng.R) string {
-	pieces := []string{"", "a", " ", "  x ", "é", "日本", "\"", "\\", "\n", "\t", "%", "1/2", "USD 5", "<kept>", "@a", "$v", "😀", "\u0000", "{}", "a b c"}
+	pieces := []string{"", "a", " ", "  x ", "é", "日本", "\"", "\\", "\n", "\t", "%", "1/2", "USD 5", "<kept>", "@a", "$v", "😀", "\u0000", "{}", "a b c", "\\\"", "say \\\"hi\\\"", "%d"}
 	n := r.Range(0, 4)
 	s := ""
 	for i := 0; i < n; i++ {
@@ -448,7 +448,8 @@ func roundTrip(c *fw.Ctx, r *rng.R, id string, i int) bool {
 		lit = &gen.Asset{Name: text}
 	case "string":
 		text = randString(r)
-		if !strings.ContainsAny(text, "\"\n\r\\") {
+		// writable as a literal: no line break, and quotes only in the escaped form \"
+		if rest := strings.ReplaceAll(text, "\\\"", ""); !strings.ContainsAny(rest, "\"\n\r\\") {
 			lit = &gen.Str{S: text}
 		}
 	}
